@@ -58,14 +58,16 @@ def expected_class(ex, err_kind, code):
 
 
 def reply_fields(ex, be, expected_state, others):
-    """symbolic reply: State (absent | any byte), Error (absent | any byte | empty | two bytes), subset of `others`"""
-    state_kind = ex.choice("state_kind", ["present", "absent"])
+    """symbolic reply: State (absent | any byte | empty), Error (absent | any byte | empty | two bytes), subset of `others`"""
+    state_kind = ex.choice("state_kind", ["present", "absent", "empty"])
     state = ex.fresh_int("state", 0, 255)
     err_kind = ex.choice("error_kind", ["absent", "byte", "empty", "two-bytes"])
     code = ex.fresh_int("error", 0, 255)
     fields = []
     if state_kind == "present":
         fields.append((T_STATE, byte(state)))
+    elif state_kind == "empty":
+        fields.append((T_STATE, b""))  # a State item truncated to zero length is not the expected step number
     if err_kind == "byte":
         fields.append((T_ERROR, byte(code)))
     elif err_kind == "empty":
@@ -75,7 +77,7 @@ def reply_fields(ex, be, expected_state, others):
     for i, (t, v) in enumerate(others):
         if ex.fresh_bool("has_field%d" % i):
             fields.append((t, v))
-    state_wrong = state_kind == "present" and decide(state != expected_state)
+    state_wrong = state_kind == "empty" or (state_kind == "present" and decide(state != expected_state))
     return fields, state_kind, state_wrong, err_kind, code
 
 
@@ -230,6 +232,8 @@ def mgmt_unit(M, which, op):
     def h(ex):
         be = hap.backend(ex, M.proto)
         fields, sk, sw, ek, code = reply_fields(ex, be, 2, [(T_ID, b"xx")])
+        if ex.fresh_bool("other_fields_first"):  # nothing filters these replies: the order of the items must not matter
+            fields = [f for f in fields if f[0] not in (T_STATE, T_ERROR)] + [f for f in fields if f[0] in (T_STATE, T_ERROR)]
         body = tlv8_encode(fields)
 
         async def ens():
@@ -245,7 +249,7 @@ def mgmt_unit(M, which, op):
 
             class Conn:
                 async def post_tlv(self, target, request, expected=None):
-                    return M.tlv.TLV.decode_bytes(body if be.sym else bytes(body.concrete()))
+                    return M.tlv.TLV.decode_bytes(body if be.sym else bytes(body.concrete()), expected=expected)  # as the real post_tlv
 
             p.connection = Conn()
         else:
